@@ -269,6 +269,20 @@ example : ((applyConfig { n := 3, idOf := fun i => s!"n{i}", tagsOf := fun i => 
       ⟨fun _ => 1, fun i => i == 1⟩ [⟨.name "g", some 9, none⟩]).toOption.map
         fun a' => (a'.prio 0, a'.prio 1, a'.prio 2, a'.seq 0, a'.seq 1)) = some (9, 9, 1, false, true) := by decide
 
+/-- C03 (ids): node ids are (base name, number of earlier registrations of that base name) — `f`, `f<<1>>`, … — so
+    whatever sequence of call sites a description registers, all ids are distinct: one node per call site. -/
+theorem C03_call_site_ids_distinct (bases : List String) : (GM.allocAll [] bases).Nodup :=
+  GM.C03_call_site_ids_distinct bases
+
+/-- C20 (ids): the prefixes of two sub-DAG call sites allocated one after the other differ — also when the two DAG objects
+    share a qualname — so the nodes spliced at the two sites never capture or collide with each other. -/
+theorem C20_spliced_ids_distinct (ids : List GM.Id) (h : GM.Dense ids) (q1 q2 : String) (a b : GM.Id) :
+    ((GM.alloc ids q1, a) : GM.Spliced) ≠ (GM.alloc (ids ++ [GM.alloc ids q1]) q2, b) :=
+  GM.C20_spliced_ids_distinct ids h q1 q2 a b
+
+-- non-vacuity: three call sites of `f` and one of `g`
+example : GM.allocAll [] ["f", "g", "f", "f"] = [("f", 0), ("g", 0), ("f", 1), ("f", 2)] := by decide
+
 /-- C13 (flag off): no debug node survives, for every selection. -/
 theorem C13_flag_off_no_debug (g : G) (isDebug : GM.Node → Bool) (sel leaves : List GM.Node) (x : GM.Node)
     (hx : x ∈ extendDebug g isDebug sel leaves false) : isDebug x = false :=
